@@ -42,8 +42,9 @@ Definition supported_c11 (c : case_t) : bool := negb (refused_in_preparation c) 
 (* per-run oracle, on the implementation's observation only:
    (d) an executed canon result that is in the produced data but in neither input was created by this
        run, so its tetraplet must name the current peer, with empty service, function and lens;
-   (r) an executed canon result of the previous data is still in the produced data (a peer never
-       replaces a result it already holds);
+   (r) after a successful run an executed canon result of the previous data is still in the produced
+       data (a peer never replaces a result it already holds; a run that ends in an uncaught catchable
+       error produces a shorter trace and is not judged here);
    (s) every executed canon result of the produced trace is in the produced canon store *)
 Definition names_current_peer (peer : string) (k : cid) : bool :=
   match k with
@@ -59,6 +60,6 @@ Definition c11_run_oracle (c : case_t) : bool :=
     let ce := executed_ids (d_trace (ri_cur i)) in
     let oe := executed_ids (eo_trace o) in
     forallb (fun k => cid_mem k pe || cid_mem k ce || names_current_peer (rp_current_peer (ri_params i)) k) oe &&
-    forallb (fun k => cid_mem k oe) pe &&
+    (if (eo_code o =? 0)%Z then forallb (fun k => cid_mem k oe) pe else true) &&
     forallb (fun k => cid_mem k (cs_canon_results (eo_cids o))) oe
   else true.
